@@ -12,6 +12,8 @@ pub struct Spy<M: Math> {
     pub scripted: Option<Vec<f64>>,
     pub rec: SpyLog,
     pub record: bool,
+    /// the last drawn momentum, until the first velocity kick has read it
+    pub fresh: Option<Vec<f64>>,
 }
 
 #[derive(Default, Debug, Clone)]
@@ -22,17 +24,31 @@ pub struct SpyLog {
     pub esh: Vec<(Vec<f64>, Vec<f64>, f64, Vec<f64>, f64)>,
     /// (before, after) of `array_normalize`
     pub normalize: Vec<(Vec<f64>, Vec<f64>)>,
+    /// for every momentum draw: was the drawn vector read, exactly as drawn, by a kick-type operation before the next draw?
+    pub first_kick_reads_draw: Vec<bool>,
 }
 
 impl<M: Math> Spy<M> {
+    /// An operation of the kind used for velocity kicks reads `v`: if it is exactly the momentum that was drawn last, that
+    /// draw has been used as drawn. (Other operations of the same kind - e.g. the mean shift of a transformation - may come
+    /// in between and are ignored.)
+    fn kick_reads(&mut self, v: &M::Vector) {
+        if let Some(drawn) = &self.fresh {
+            let now = self.inner.box_array(v);
+            if now.len() == drawn.len() && now.iter().zip(drawn.iter()).all(|(a, b)| a.to_bits() == b.to_bits()) {
+                self.fresh = None;
+                self.rec.first_kick_reads_draw.push(true);
+            }
+        }
+    }
     pub fn new(inner: M) -> Self {
-        Spy { inner, scripted: None, rec: SpyLog::default(), record: false }
+        Spy { inner, scripted: None, rec: SpyLog::default(), record: false, fresh: None }
     }
     pub fn scripted(inner: M, v: Vec<f64>) -> Self {
-        Spy { inner, scripted: Some(v), rec: SpyLog::default(), record: false }
+        Spy { inner, scripted: Some(v), rec: SpyLog::default(), record: false, fresh: None }
     }
     pub fn recording(inner: M) -> Self {
-        Spy { inner, scripted: None, rec: SpyLog::default(), record: true }
+        Spy { inner, scripted: None, rec: SpyLog::default(), record: true, fresh: None }
     }
 }
 impl<M: Math> HasDims for Spy<M> {
@@ -78,8 +94,15 @@ impl<M: Math> Math for Spy<M> {
     fn write_to_slice(&mut self, s: &Self::Vector, d: &mut [f64]) { self.inner.write_to_slice(s, d) }
     fn eigs_as_array(&mut self, s: &Self::EigValues) -> Box<[f64]> { self.inner.eigs_as_array(s) }
     fn copy_into(&mut self, a: &Self::Vector, d: &mut Self::Vector) { self.inner.copy_into(a, d) }
-    fn axpy_out(&mut self, x: &Self::Vector, y: &Self::Vector, a: f64, out: &mut Self::Vector) { self.inner.axpy_out(x, y, a, out) }
-    fn axpy(&mut self, x: &Self::Vector, y: &mut Self::Vector, a: f64) { self.inner.axpy(x, y, a) }
+    fn axpy_out(&mut self, x: &Self::Vector, y: &Self::Vector, a: f64, out: &mut Self::Vector) {
+        // Euclidean first half kick: out = velocity + a * gradient
+        self.kick_reads(y);
+        self.inner.axpy_out(x, y, a, out)
+    }
+    fn axpy(&mut self, x: &Self::Vector, y: &mut Self::Vector, a: f64) {
+        self.kick_reads(y);
+        self.inner.axpy(x, y, a)
+    }
     fn fill_array(&mut self, a: &mut Self::Vector, v: f64) { self.inner.fill_array(a, v) }
     fn array_all_finite(&mut self, a: &Self::Vector) -> bool { self.inner.array_all_finite(a) }
     fn array_all_finite_and_nonzero(&mut self, a: &Self::Vector) -> bool { self.inner.array_all_finite_and_nonzero(a) }
@@ -90,8 +113,15 @@ impl<M: Math> Math for Spy<M> {
     fn apply_lowrank_transform_inplace(&mut self, v: &Self::EigVectors, l: &Self::EigValues, r: &mut Self::Vector) { self.inner.apply_lowrank_transform_inplace(v, l, r) }
     fn array_mult_eigs(&mut self, s: &Self::Vector, r: &Self::Vector, d: &mut Self::Vector, v: &Self::EigVectors, l: &Self::EigValues) { self.inner.array_mult_eigs(s, r, d, v, l) }
     fn std_norm_flow(&mut self, p: &Self::Vector, po: &mut Self::Vector, v: &mut Self::Vector, e: f64) { self.inner.std_norm_flow(p, po, v, e) }
-    fn std_norm_grad_flow(&mut self, p: &Self::Vector, g: &Self::Vector, v: &Self::Vector, vo: &mut Self::Vector, e: f64) { self.inner.std_norm_grad_flow(p, g, v, vo, e) }
-    fn std_norm_grad_flow_inplace(&mut self, p: &Self::Vector, g: &Self::Vector, v: &mut Self::Vector, e: f64) { self.inner.std_norm_grad_flow_inplace(p, g, v, e) }
+    fn std_norm_grad_flow(&mut self, p: &Self::Vector, g: &Self::Vector, v: &Self::Vector, vo: &mut Self::Vector, e: f64) {
+        // ExactNormal first half kick
+        self.kick_reads(v);
+        self.inner.std_norm_grad_flow(p, g, v, vo, e)
+    }
+    fn std_norm_grad_flow_inplace(&mut self, p: &Self::Vector, g: &Self::Vector, v: &mut Self::Vector, e: f64) {
+        self.kick_reads(v);
+        self.inner.std_norm_grad_flow_inplace(p, g, v, e)
+    }
     fn array_normalize(&mut self, v: &mut Self::Vector) {
         if self.record {
             let before = self.inner.box_array(v).to_vec();
@@ -124,6 +154,11 @@ impl<M: Math> Math for Spy<M> {
             if self.record {
                 let s = self.inner.box_array(stds).to_vec();
                 let d = self.inner.box_array(dest).to_vec();
+                if self.fresh.take().is_some() {
+                    // the previous momentum was never read by a kick before the next one was drawn
+                    self.rec.first_kick_reads_draw.push(false);
+                }
+                self.fresh = Some(d.clone());
                 self.rec.gaussians.push((s, d));
             }
         }
